@@ -785,6 +785,10 @@ def worker_kry(case, led):
         E = scipy.linalg.expm(complex(dt) * A.astype(complex))
         for st in starts:
             vc = cplx or (dt_kind == "imaginary" and bool(rng.integers(2)))
+            # a REAL start vector under a complex Hermitian matrix (the Krylov vectors are complex although the start is not): generic and unit-vector starts
+            # (the invariant-subspace starts are built from the complex eigenvectors)
+            if cplx and st in ("random", "e0") and ph in ("+", "-i", "c+"):
+                vc = False
             kk = {"inv1": 1, "inv2": 2, "inv3": 3, "near": 2}.get(st)
             if kk is not None and kk > n:
                 continue
